@@ -868,18 +868,22 @@ where
     }
 }
 
+// A node is a handle to shared state: every clone, on whatever thread, reads the
+// key, the value and (under the read lock) the edge values by shared reference
+// and may drop them. Both impls therefore need all three to be Send AND Sync,
+// exactly as `Arc<(K, N, RwLock<..>)>` would require by itself.
 unsafe impl<K, N, E> Send for Node<K, N, E>
 where
-    K: Clone + Hash + Display + PartialEq + Eq + Send,
-    N: Clone + Send,
-    E: Clone + Send,
+    K: Clone + Hash + Display + PartialEq + Eq + Send + Sync,
+    N: Clone + Send + Sync,
+    E: Clone + Send + Sync,
 {
 }
 
 unsafe impl<K, N, E> Sync for Node<K, N, E>
 where
-    K: Clone + Hash + Display + PartialEq + Eq + Sync,
-    N: Clone + Sync,
-    E: Clone + Sync,
+    K: Clone + Hash + Display + PartialEq + Eq + Send + Sync,
+    N: Clone + Send + Sync,
+    E: Clone + Send + Sync,
 {
 }
